@@ -442,6 +442,63 @@ impl<'a> VisitMut for LogPass<'a> {
 }
 
 // ---------------------------------------------------------------------------------------------
+// R17: `matches!(E, P)` / `matches!(E, P if G)` -> `match E { P => true, _ => false }` (the macro's definition),
+// only when the scrutinee contains a closure (so that the closure can be annotated, R12); other uses are left
+// to the compiler's own expansion.
+struct MatchesArgs { e: Expr, pat: Pat, guard: Option<Expr> }
+impl syn::parse::Parse for MatchesArgs {
+    fn parse(input: syn::parse::ParseStream) -> Result<Self> {
+        let e: Expr = input.parse()?;
+        let _: Token![,] = input.parse()?;
+        let pat = Pat::parse_multi_with_leading_vert(input)?;
+        let guard = if input.peek(Token![if]) { let _: Token![if] = input.parse()?; Some(input.parse::<Expr>()?) } else { None };
+        let _ = input.parse::<Option<Token![,]>>();
+        Ok(MatchesArgs { e, pat, guard })
+    }
+}
+struct MatchesPass<'a> { rules: &'a mut Rules }
+impl<'a> VisitMut for MatchesPass<'a> {
+    fn visit_expr_mut(&mut self, e: &mut Expr) {
+        if let Expr::Macro(m) = e {
+            if macro_name(&m.mac.path) == "matches" && m.mac.tokens.to_string().contains('|') {
+                if let Ok(a) = syn::parse2::<MatchesArgs>(m.mac.tokens.clone()) {
+                    let has_closure = { struct F(bool); impl<'ast> syn::visit::Visit<'ast> for F { fn visit_expr_closure(&mut self, _c: &'ast ExprClosure) { self.0 = true; } } let mut f = F(false); syn::visit::Visit::visit_expr(&mut f, &a.e); f.0 };
+                    if has_closure {
+                        let (sc, pat) = (a.e, a.pat);
+                        let new: Expr = match a.guard {
+                            Some(g) => parse_quote!(match #sc { #pat if #g => true, _ => false }),
+                            None => parse_quote!(match #sc { #pat => true, _ => false }),
+                        };
+                        self.rules.hit("R17.matches_macro_expanded");
+                        *e = new;
+                    }
+                }
+            }
+        }
+        visit_mut::visit_expr_mut(self, e);
+    }
+    fn visit_item_mut(&mut self, _i: &mut Item) {}
+}
+
+// ---------------------------------------------------------------------------------------------
+// R16: `async fn` -> `fn`, `E.await` -> `E` (sequential reading of one future: the function's own
+// statements run in program order between suspension points; what other tasks do in between is not
+// modelled).  Only applied to items that ask for it (`sync_async` flag in the contract file).
+
+struct AwaitPass<'a> { rules: &'a mut Rules }
+impl<'a> VisitMut for AwaitPass<'a> {
+    fn visit_expr_mut(&mut self, e: &mut Expr) {
+        visit_mut::visit_expr_mut(self, e);
+        if let Expr::Await(a) = e {
+            self.rules.hit("R16.await_dropped");
+            let inner = (*a.base).clone();
+            *e = inner;
+        }
+    }
+    fn visit_item_mut(&mut self, _i: &mut Item) {}
+}
+
+// ---------------------------------------------------------------------------------------------
 // R4: let-chains -> nested if / if-let (else branch duplicated)
 
 struct LetChainPass<'a> { rules: &'a mut Rules }
@@ -784,7 +841,7 @@ impl<'a> VisitMut for ClosurePass<'a> {
                         if let Some(sp) = self.specs.get(&o) {
                             if let Some(a) = &sp.adapter {
                                 let want = a.trim_start_matches("vx_");
-                                if mc.method == want { adapter = Some(a.clone()); bind = sp.bind.clone(); recv_mode = sp.adapter_recv.clone(); } else {
+                                if mc.method == want || a.ends_with(&format!("_{}", mc.method)) { adapter = Some(a.clone()); bind = sp.bind.clone(); recv_mode = sp.adapter_recv.clone(); } else {
                                     self.errors.push(format!("closure {}: adapter {} does not match method {}", o, a, mc.method));
                                 }
                             }
@@ -1113,11 +1170,20 @@ fn process_fn(
     let spec = job.spec;
     let mut markers = Markers::new();
     filter_attrs(attrs, job.cfg, rules);
+    // R17 (before tagging, so that closures inside `matches!` get an ordinal)
+    MatchesPass { rules }.visit_block_mut(block);
     // P0 tag
     let mut tag = TagPass { loops: 0, closures: 0 };
     tag.visit_block_mut(block);
     // R1 inside bodies
     AttrPass { cfg: job.cfg, rules }.visit_block_mut(block);
+    // R16
+    if spec.get("sync_async").is_some() {
+        if sig.asyncness.is_some() { sig.asyncness = None; rules.hit("R16.async_fn_as_fn"); }
+        AwaitPass { rules }.visit_block_mut(block);
+    } else if sig.asyncness.is_some() {
+        errors.push(format!("{}: async fn (outside the supported subset unless the contract asks for R16)", path));
+    }
     // R3
     LogPass { rules, drop_macros: job.drop_macros.clone() }.visit_block_mut(block);
     // R4
